@@ -516,6 +516,13 @@ class Interp:
         for t in st.targets:
             if isinstance(t, ast.Name):
                 fr.locals.pop(t.id, None)
+            elif isinstance(t, ast.Attribute):
+                base = self.eval(t.value, fr)
+                if isinstance(base, Obj) and t.attr in base.fields:
+                    del base.fields[t.attr]
+                    base.written.add(t.attr)
+                else:
+                    raise PyRaise(builtin_exc('AttributeError'), t.attr)
             else:
                 raise Unsupported('del of non-name')
 
